@@ -77,7 +77,7 @@ class Proposal(c01.StubProposal):
             ctx.assume(L != 0)
         rec = np.empty(1, dtype=self.dtype)
         rec["x"], rec["logP"], rec["logL"], rec["it"], rec["tag"] = x, P, L, 0, t
-        self.offered[t] = dict(logL=L, logP=P, kind="sym", x=x)
+        self.offered[t] = dict(logL=L, logP=P, kind="sym", x=x, contour=getattr(self, "sampler", None) and self.sampler.logLmin)
         self._populated = None
         return rec[0]
 
@@ -100,6 +100,7 @@ def make_standard(N, steps):
         ns.state = _NSIntegralState(n_exact, track_gradients=False)
         ns.model = ModelStub(ctx)
         ns.proposal = Proposal(ctx, dt, N + steps + 1, tag0=100, specials=False, nonfinite_prior=False)
+        ns.proposal.sampler = ns
         ns._uninformed_proposal = ns._flow_proposal = type("P", (), {"population_time": datetime.timedelta()})()
         ns.training_time = datetime.timedelta(seconds=2)
         ns.sampling_time = datetime.timedelta(seconds=5)
@@ -122,6 +123,8 @@ def make_standard(N, steps):
         birth = d["logL_birth"]
         ctx.prove(len(birth) == n, "one birth likelihood per sample")
         for i in range(n):
+            contour = ns.proposal.offered[int(samples["tag"][i])]["contour"]
+            ctx.prove_eq(birth[i], contour, "birth likelihood = the likelihood contour inside which the sample was drawn (-inf for the initial points)")
             if isinstance(birth[i], float) and birth[i] == -np.inf:
                 continue
             ctx.prove(birth[i] < samples["logL"][i], "birth likelihood strictly below the sample's likelihood")
